@@ -123,6 +123,45 @@ func (c *Ctx) familyPairing() {
 			r.Check(okSrc, "C11.family", FuncName(lcs), fld, posf(c, st), "state read from its own store", "field "+fld+" is filled from the other family's store")
 		}
 	}
+	// each family's state is read whatever the other family's store answered: a
+	// request without a session still carries cookies (the remember cookie of a
+	// returning visitor), and vice versa
+	for _, fam := range []string{"SessionState", "CookieState"} {
+		var reads []ssa.Instruction
+		for _, call := range CallsTo(lcs, "(ab.ClientStateReadWriter).ReadState") {
+			if hasField(c.fieldOrigins(call.Common().Value), fam) {
+				reads = append(reads, call.(ssa.Instruction))
+			}
+		}
+		if len(reads) == 0 {
+			r.Bad("C11.family", FuncName(lcs), "ReadState("+fam+")", c.P.Pos(lcs.Pos()), "the "+fam+" store is never read")
+			continue
+		}
+		q := PathQuery{StartBlock: lcs.Blocks[0], Cut: func(i ssa.Instruction) bool {
+			for _, rd := range reads {
+				if rd == i {
+					return true
+				}
+			}
+			return false
+		}, Goal: func(i ssa.Instruction) bool {
+			ret, ok := i.(*ssa.Return)
+			return ok && !c.isErrorExit(ret)
+		}, Prune: func(from, to *ssa.BasicBlock) bool {
+			// the edge on which this family has no store configured
+			f, ok := EdgeFact(from, to)
+			if !ok {
+				return false
+			}
+			rel := f.Rel()
+			return rel.Op == token.EQL && IsNilConst(rel.Y) && fieldLoadName(rel.X) == fam
+		}}
+		if p := q.Find(); p != nil {
+			r.Bad("C11.family", FuncName(lcs), "ReadState("+fam+") on every path", posf(c, reads[0]), "the request can be handed on without the "+fam+" store having been read although one is configured (for example because the other family had no state): handlers then see no "+strings.ToLower(strings.TrimSuffix(fam, "State"))+" state for this request", c.P.DescribePath(p)...)
+		} else {
+			r.Ok("C11.family", FuncName(lcs), "ReadState("+fam+") on every path", posf(c, reads[0]), "read whenever a store is configured")
+		}
+	}
 	for _, call := range CallsTo(lcs, fnWithValue) {
 		key := Arg(call, 1)
 		if mi, ok := key.(*ssa.MakeInterface); ok {
